@@ -75,4 +75,14 @@ var c07Benign = []core.Mutant{
 		Find:    "\ts.closed = true\n\treturn s.decoder.Close()\n",
 		Replace: "\tdefer s.decoder.Close()\n\ts.closed = true\n\treturn nil\n",
 	},
+	{ // serializer: both selects move into a helper that is the loop condition; the step is the loop body
+		Name: "serializer-loop-condition-helper", File: "osmpbf/decode.go",
+		Find:    "\n\t\tfor i := 0; ; i = (i + 1) % n {\n\t\t\toutput := dec.outputs[i]\n\n\t\t\tvar p oPair\n\t\t\tselect {\n\t\t\tcase p = <-output:\n\t\t\tcase <-dec.ctx.Done():\n\t\t\t\treturn\n\t\t\t}\n\n\t\t\tselect {\n\t\t\tcase dec.serializer <- p:\n\t\t\tcase <-dec.ctx.Done():\n\t\t\t\treturn\n\t\t\t}\n\n\t\t\tif p.Err != nil {\n\t\t\t\treturn\n\t\t\t}\n\t\t}\n\t}()\n\n\treturn nil\n}",
+		Replace: "\n\t\tturn := 0\n\t\tfor dec.relay(dec.outputs[turn]) {\n\t\t\tturn = (turn + 1) % n\n\t\t}\n\t}()\n\n\treturn nil\n}\n\n// relay moves one pair from a worker's output to the ordered queue and tells whether to go on.\nfunc (dec *decoder) relay(from <-chan oPair) bool {\n\tvar pair oPair\n\tselect {\n\tcase pair = <-from:\n\tcase <-dec.ctx.Done():\n\t\treturn false\n\t}\n\n\tselect {\n\tcase dec.serializer <- pair:\n\tcase <-dec.ctx.Done():\n\t\treturn false\n\t}\n\n\treturn pair.Err == nil\n}",
+	},
+	{ // osmpbf Scan: the guard is a predicate helper with two return statements
+		Name: "pbf-scan-stopped-helper-two-returns", File: "osmpbf/scanner.go",
+		Find:    "\tif s.err != nil || s.closed || s.ctx.Err() != nil {\n\t\treturn false\n\t}\n\n\ts.next, s.err = s.decoder.Next()\n\treturn s.err == nil\n}\n",
+		Replace: "\tif s.stopped() {\n\t\treturn false\n\t}\n\n\ts.next, s.err = s.decoder.Next()\n\treturn s.err == nil\n}\n\nfunc (s *Scanner) stopped() bool {\n\tif s.err != nil {\n\t\treturn true\n\t}\n\n\treturn s.closed || s.ctx.Err() != nil\n}\n",
+	},
 }
